@@ -1,6 +1,7 @@
 package main
 
 import (
+	"encoding/json"
 	"fmt"
 	"net/netip"
 	"strings"
@@ -48,6 +49,49 @@ func parseAddrAs(role, s string) string {
 	})
 }
 
+func jsonSafe(s string) bool {
+	for _, c := range []byte(s) {
+		if c < 0x20 || c >= 0x7f || c == '"' || c == '\\' {
+			return false
+		}
+	}
+	return true
+}
+
+func jsonAddrAs(role, s string) string {
+	return guard(func() string {
+		var ap netip.AddrPort
+		var err error
+		text := []byte(`"` + s + `"`)
+		switch role {
+		case "bind":
+			var a types.BindAddr
+			err = json.Unmarshal(text, &a)
+			ap = a.AddrPort
+		case "broadcast":
+			var a types.BroadcastAddr
+			err = json.Unmarshal(text, &a)
+			ap = a.AddrPort
+		case "listen":
+			var a types.ListenAddr
+			err = json.Unmarshal(text, &a)
+			ap = a.AddrPort
+		case "controller":
+			var a types.ControllerAddr
+			err = json.Unmarshal(text, &a)
+			ap = a.AddrPort
+		}
+		if err != nil {
+			return "err"
+		}
+		if !ap.Addr().Is4() {
+			return "ok-non-ipv4 " + ap.String()
+		}
+		b := ap.Addr().As4()
+		return fmt.Sprintf("ok %d.%d.%d.%d:%d", b[0], b[1], b[2], b[3], ap.Port())
+	})
+}
+
 func formatAddrAs(role string, a netip.Addr, port uint16) string {
 	return guard(func() string {
 		switch role {
@@ -66,9 +110,16 @@ func formatAddrAs(role string, a netip.Addr, port uint16) string {
 func streamAddr(c *ctx) {
 	r := c.r
 	w := c.w
+	nParse := 0
 	emitParse := func(role, s, tag string) {
 		out := parseAddrAs(role, s)
 		w.Emit("addr-parse "+role+" "+cases.Hex([]byte(s)), out, tag, "addr/"+role, "addr-res/"+strings.SplitN(out, " ", 2)[0])
+		// the JSON form of an address is its text in quotes: decoding it is the same parser under the same port rule
+		nParse++
+		if nParse%3 == 0 && jsonSafe(s) {
+			out := jsonAddrAs(role, s)
+			w.Emit("addr-json "+role+" "+cases.Hex([]byte(s)), out, tag, "addr-json/"+role, "addr-res/"+strings.SplitN(out, " ", 2)[0])
+		}
 	}
 	// ordinary, wildcard, broadcast, private, loopback, link-local, multicast, CGNAT, class E: the port rules are the
 	// same for every address
